@@ -18,8 +18,9 @@ func init() {
 			r("L1", RuleL1),
 			r("SB1", RuleSB1),
 			r("NE1", RuleNE1),
+			r("UX1", RuleUX1),
 		},
-		Explanation: "Totality is split into the mechanisms the code relies on, each decided on every path/site: scanner pushdown reachability (no empty pops, no inverted lexeme spans, no index underflow, progress), nil/unset typestates of the parser and directive tree, guarded recursion and worklists, discharged explicit panics, recover barriers around the trusted library. A parameter indexed at a fixed end receives, at every call site, a value that is non-empty by construction; a transformed lexeme value is reported (IX1). A result of a call outside the repository is dereferenced only where its error was found nil (NE1). A local string that starts empty and is indexed at a fixed position is assigned or found non-empty on every path first (IX1 zero-local).",
+		Explanation: "Totality is split into the mechanisms the code relies on, each decided on every path/site: scanner pushdown reachability (no empty pops, no inverted lexeme spans, no index underflow, progress), nil/unset typestates of the parser and directive tree, guarded recursion and worklists, discharged explicit panics, recover barriers around the trusted library. A parameter indexed at a fixed end receives, at every call site, a value that is non-empty by construction; a transformed lexeme value is reported (IX1). A result of a call outside the repository is dereferenced only where its error was found nil (NE1). A local string that starts empty and is indexed at a fixed position is assigned or found non-empty on every path first (IX1 zero-local). An index x[v-K] is evaluated only where a test of v precedes it in evaluation order (UX1).",
 		Trusted:     trustedCommon,
 	})
 }
